@@ -1258,6 +1258,10 @@ def rahukaalam(
         oneday = datetime.timedelta(days=1)
         end = sunrise(observer, date + oneday, tzinfo)
 
+    # do the arithmetic in UTC: datetimes that share a tzinfo are subtracted and
+    # added on the wall clock, which is wrong across a daylight saving change
+    start = start.astimezone(datetime.timezone.utc)
+    end = end.astimezone(datetime.timezone.utc)
     octant_duration = datetime.timedelta(seconds=(end - start).seconds / 8)
 
     # Mo,Sa,Fr,We,Th,Tu,Su
@@ -1269,7 +1273,7 @@ def rahukaalam(
     start = start + (octant_duration * octant)
     end = start + octant_duration
 
-    return start, end
+    return start.astimezone(tzinfo), end.astimezone(tzinfo)  # type: ignore
 
 
 def sun(
